@@ -3,7 +3,7 @@
       <graph> <nodes> <edges flat> status n' { old <Out(i)> <EdgeMap(i,.) flat> }^n' 1 <graph> <nodes> <edges flat>
    (pure = 1 and the three arguments after the call are the arguments), the graph is well-formed, and
      - in general: the observation is what the model of the code (Model/Subgraph.v) returns: status 2
-       (panic) when the model panics, else status 0 and the observed rows (NodeMap, Out, EdgeMap) are,
+       (panic) and no rows when the model panics, else status 0 and the observed rows (NodeMap, Out, EdgeMap) are,
        field for field, the rows of the model's result;
      - SubgraphKeep on a WELL-FORMED request (no negative number, keep_wf: distinct existing nodes, every
        requested edge joins kept nodes): status 0 and the rows are the rows of a subgraph s that satisfies
@@ -50,7 +50,7 @@ Proof.
 Qed.
 
 Definition sg_matches (expected : option subgraph) (status : Z) (obs : list sg_obs) : Prop :=
-  match expected with None => status = 2 | Some s => status = 0 /\ Forall2 sg_row s obs end.
+  match expected with None => status = 2 /\ obs = [] | Some s => status = 0 /\ Forall2 sg_row s obs end.
 
 Lemma sg_verdict_sound : forall op bits expected status obs pure same c tag pos diag,
   sg_verdict op bits expected status obs pure same = verdict c tag pos diag -> c = 0 \/ c = 1 ->
@@ -60,7 +60,8 @@ Proof.
   apply ok_or_mismatch in H; [|exact Hc]. destruct H as [W ->].
   destruct expected as [s|]; ff_split W;
     repeat match goal with H : (_ =? _) = true |- _ => apply Z.eqb_eq in H end; subst; cbn; repeat split; auto.
-  apply sg_eqb_spec. assumption.
+  - apply sg_eqb_spec. assumption.
+  - match goal with H : (length _ =? 0)%nat = true |- _ => apply Nat.eqb_eq in H; apply length_zero_iff_nil; exact H end.
 Qed.
 
 (* ====================================================================== op 7: SubgraphKeep *)
@@ -104,7 +105,7 @@ Proof.
   - intros Hneg Hwf. rewrite Hneg in M.
     destruct (subgraph_keep_spec _ _ _ Hwf) as (s & Es & Hs). rewrite Es in M. destruct M as [M1 M2].
     split; [exact M1|]. exists s. split; [exact M2|exact Hs].
-  - intros Hneg Hbad. rewrite Hneg in M. rewrite (subgraph_keep_panics _ _ _ Hbad) in M. exact M.
+  - intros Hneg Hbad. rewrite Hneg in M. rewrite (subgraph_keep_panics _ _ _ Hbad) in M. apply M.
 Qed.
 
 (* ====================================================================== op 8: SubgraphRemove *)
@@ -147,5 +148,5 @@ Proof.
   split; [exact Ewf|]. split; [exact M|]. split.
   - intro Hd. destruct (subgraph_remove_spec _ _ edges Ewf Hd) as (s & Es & Hs). rewrite Es in M. destruct M as [M1 M2].
     split; [exact M1|]. exists s. split; [exact M2|exact Hs].
-  - intro Hd. rewrite (subgraph_remove_panics _ _ edges Hd) in M. exact M.
+  - intro Hd. rewrite (subgraph_remove_panics _ _ edges Hd) in M. apply M.
 Qed.
